@@ -96,10 +96,16 @@ def prepare(ctx):
 
 
 def both(ctx, data, args, path=None, timeout=120):
+    import time
     outs = []
     for k in ("stage1", "stage2"):
         cmd = [ctx.builds[k]] + list(args) + ([path] if path else [])
-        p = run(cmd, input=None if path else data, env=cproc.BASE_ENV, timeout=timeout, cwd=ctx.tmp)
+        t0 = time.time()
+        # stage 2 gets 40 times what stage 1 took (at least 15 s) and 4 GiB: a stage 2 that loops or grows without end on many
+        # inputs must not stretch the run to hours
+        p = run(cmd, input=None if path else data, env=cproc.BASE_ENV, timeout=timeout, cwd=ctx.tmp, preexec=cproc.limits(as_mb=4096) if k == "stage2" else None)
+        if k == "stage1":
+            timeout = min(timeout, max(15, 40 * (time.time() - t0)))
         outs.append(p)
     return outs
 
